@@ -2,6 +2,7 @@ pub mod checks;
 pub mod corpus;
 pub mod drivers;
 pub mod engine;
+pub mod families;
 pub mod interp;
 pub mod run;
 pub mod settings;
